@@ -567,6 +567,9 @@ func rcAsFile(w *World) {
 }
 
 func rc8bImplicitDep(w *World, info *types.Info, body *ast.BlockStmt, setBlocked *types.Func) {
+	// names are taken from the code: the published list is setBlockedOn's argument; the implicit
+	// dependency is the constant path handed to compile(ctx, <const>); the flag is the boolean
+	// identifier that guards that compile call
 	var publishArg string
 	var publishPos token.Pos
 	ast.Inspect(body, func(x ast.Node) bool {
@@ -576,19 +579,55 @@ func rc8bImplicitDep(w *World, info *types.Info, body *ast.BlockStmt, setBlocked
 		}
 		return true
 	})
+	parents := parentMap(body)
+	implicitPath, flag := "", ""
+	ast.Inspect(body, func(x ast.Node) bool {
+		c, ok := x.(*ast.CallExpr)
+		if !ok || len(c.Args) != 2 {
+			return true
+		}
+		sel, ok := ast.Unparen(c.Fun).(*ast.SelectorExpr)
+		if !ok || sel.Sel.Name != "compile" {
+			return true
+		}
+		tv, ok := info.Types[c.Args[1]]
+		if !ok || tv.Value == nil {
+			return true
+		}
+		implicitPath = render(c.Args[1])
+		for cur := parents[c]; cur != nil; cur = parents[cur] {
+			if ifs, ok := cur.(*ast.IfStmt); ok {
+				if id, ok := ast.Unparen(ifs.Cond).(*ast.Ident); ok {
+					if bt, ok := info.TypeOf(id).Underlying().(*types.Basic); ok && bt.Kind() == types.Bool {
+						flag = id.Name
+						break
+					}
+				}
+			}
+		}
+		return true
+	})
+	if implicitPath == "" {
+		w.ok("RC8|asFile|implicit-dep-published", body.Pos(), "asFile compiles no dependency by a constant path: there is no implicit dependency to publish")
+		return
+	}
+	if flag == "" || publishArg == "" {
+		w.undecided("RC8|asFile|implicit-dep-published", body.Pos(), "the implicit dependency "+implicitPath+" is compiled, but the boolean that guards it or the published list cannot be identified")
+		return
+	}
 	found := false
 	ast.Inspect(body, func(x ast.Node) bool {
 		blk, ok := x.(*ast.BlockStmt)
 		if !ok {
 			return true
 		}
-		setsWants, assignsArg, mentionsPath := false, false, false
+		setsFlag, assignsArg, mentionsPath := false, false, false
 		for _, st := range blk.List {
 			as, ok := st.(*ast.AssignStmt)
 			if !ok {
 				if es, ok := st.(*ast.ExprStmt); ok {
 					ast.Inspect(es, func(y ast.Node) bool {
-						if id, ok := y.(*ast.Ident); ok && id.Name == "descriptorProtoPath" {
+						if id, ok := y.(*ast.Ident); ok && id.Name == implicitPath {
 							mentionsPath = true
 						}
 						return true
@@ -597,32 +636,32 @@ func rc8bImplicitDep(w *World, info *types.Info, body *ast.BlockStmt, setBlocked
 				continue
 			}
 			for i, l := range as.Lhs {
-				if render(l) == "wantsDescriptorProto" && i < len(as.Rhs) && render(as.Rhs[i]) == "true" {
-					setsWants = true
+				if render(l) == flag && i < len(as.Rhs) && render(as.Rhs[i]) != "false" {
+					setsFlag = true // any assignment that can make the flag true
 				}
 				if render(l) == publishArg {
 					assignsArg = true
 				}
 			}
 			ast.Inspect(as, func(y ast.Node) bool {
-				if id, ok := y.(*ast.Ident); ok && id.Name == "descriptorProtoPath" {
+				if id, ok := y.(*ast.Ident); ok && id.Name == implicitPath {
 					mentionsPath = true
 				}
 				return true
 			})
 		}
-		if setsWants {
+		if setsFlag {
 			found = true
 			if assignsArg && mentionsPath {
-				w.ok("RC8|asFile|implicit-dep-published", blk.Pos(), "the block that decides to await the implicit descriptor.proto also extends the published list '"+publishArg+"' with descriptorProtoPath")
+				w.ok("RC8|asFile|implicit-dep-published", blk.Pos(), "the block that decides to await the implicit "+implicitPath+" ("+flag+" = true) also extends the published list '"+publishArg+"' with it")
 			} else {
-				w.violation("RC8|asFile|implicit-dep-published", publishPos, "the list passed to setBlockedOn ('"+publishArg+"') is not the one extended with the implicit descriptor.proto dependency: that wait is invisible to other tasks' cycle checks")
+				w.violation("RC8|asFile|implicit-dep-published", publishPos, "the block that can set "+flag+" (the implicit "+implicitPath+" will be compiled and awaited) does not extend the list passed to setBlockedOn ('"+publishArg+"') with that path: the wait is invisible to other tasks' cycle checks, so a cycle that closes through the implicit dependency is not reported and both tasks wait forever")
 			}
 		}
 		return true
 	})
 	if !found {
-		w.undecided("RC8|asFile|implicit-dep-published", body.Pos(), "cannot find the block that sets wantsDescriptorProto = true")
+		w.undecided("RC8|asFile|implicit-dep-published", body.Pos(), "cannot find an assignment that can make "+flag+" true")
 	}
 }
 
